@@ -18,10 +18,17 @@
 //	    the same pool through the real engine with n concurrent instances and rps once(K), in a child process
 //	    (a concurrent map write is a fatal runtime error); observation = sorted multisets.
 //	mode=table        observation = the method table the gun obtained by reflection.
+//	rp=1  (any mode)  the descriptors come from a SEPARATE reflection endpoint on another port (gun option reflect_port);
+//	                  the target does not serve reflection; the observation ends with stray=<calls the reflection
+//	                  endpoint received> (must be 0: every call goes to the target)
+//	rmd=1 (any mode)  the reflection API demands the metadata configured as reflect_metadata
 //
 // val: s.<text> string, n.<int> number, f.<text> raw number text, b.true|b.false, z null, o {}, l [].
-// template text: literal characters plus {U} (this call's preprocessor user), {A} {I} (token / userId returned by
-// the call named auth), {G} (the global constant).
+// template text: literal characters plus placeholders {L} / {Ld}: L = U (this call's preprocessor user), A I (token /
+// userId returned by the call named auth), G (the global constant), R S X (template functions: randInt 7 8 = 7,
+// randString 3 "z" = zzz, uuid printed as UUID), K (the global constant through the index builtin), L (a string
+// constant: lit), N (len "abcd" = 4), E (an action that fails to execute), P (a text the template parser
+// rejects); d = 0..9 the way the action is spelled in text/template syntax (cases.go tmplSpell; for P: which error).
 package main
 
 import (
@@ -54,8 +61,13 @@ func main() {
 			"timeouts 0/3/5/8/40/65/90/115 s, through the real engine and entry by entry in generated instance orders; gRPC " +
 			"scenarios (templated metadata/payload, per-shot users via [next], auth token chaining, the same call in " +
 			"several scenarios, names whose joined forms collide, a metadata key called payload, failing steps, sleeps " +
-			"adding up to more than the per-call timeout) shot by 1..4 real guns in generated instance orders and " +
-			"through the real engine; thorough adds exhaustive schedules / pool shapes / the payload typing table; " +
+			"adding up to more than the per-call timeout; every template action spelled in the ten ways text/template " +
+			"allows incl. trim markers, print, pipelines, define/template, if/else, $variables and pandora's template " +
+			"functions randInt/randString/uuid; variables that do not exist where they are used; templates that cannot be " +
+			"parsed or executed) shot by 1..4 real guns in generated instance orders and through the real engine; every " +
+			"mode also with the descriptors served by a separate reflection-only endpoint (reflect_port, target without " +
+			"reflection) and / or a reflection API demanding reflect_metadata, combined with shared client on/off; " +
+			"thorough adds exhaustive schedules / pool shapes (x reflect_port) / the payload typing table; " +
 			"non-trivial = at least one call reached the server or a failed sample was produced",
 	})
 }
